@@ -703,18 +703,8 @@ SoPlexBase<R>::Settings::RationalParam SoPlexBase<R>::Settings::rationalParam;
 ///@todo improve performance by implementing a separate copy constructor
 template <class R>
 SoPlexBase<R>::SoPlexBase(const SoPlexBase<R>& rhs)
+   : SoPlexBase<R>()
 {
-   // allocate memory as in default constructor
-   _statistics = nullptr;
-   spx_alloc(_statistics);
-   _statistics = new(_statistics) Statistics();
-
-   _currentSettings = nullptr;
-   spx_alloc(_currentSettings);
-   _currentSettings = new(_currentSettings) Settings();
-
-   _rationalLP = nullptr;
-
    // call assignment operator
    *this = rhs;
 }
